@@ -316,7 +316,7 @@ def check_registered(recipe, ctx):
 
 SUBS = [
     Sub('walk', check, gen=gen, quick=6000, thorough=15000,
-        floors={'exp-ok': 0.2, 'exp-err': 0.2, 'fail-at-k>=1': 0.08, 'spelling-str': 0.1, 'spelling-t': 0.01}),
+        floors={'exp-ok': 0.2, 'exp-err': 0.2, 'fail-at-k>=1': 0.08, 'spelling-str': 0.07, 'spelling-t': 0.01}),
     Sub('registered', check_registered, gen=gen_registered, quick=1200, thorough=5000,
         floors={'registered': 0.3, 'not-yet-registered': 0.1}),
 ]
